@@ -306,7 +306,12 @@ NAME_ALPHABET = "ABCDEFGHIKLMNOPQRSTUVWXYZabcdefgh0123456789'*"
 def _atom_strategy(fmt):
     # names start with letters and end in at most three non-letters, so that every truncation the formats can produce
     # still contains a letter (the readers guess the element from the first letter and reject letter-less names)
-    name = st.tuples(st.text(alphabet=LETTERS, min_size=1, max_size=4), st.text(alphabet=NAME_ALPHABET, min_size=0, max_size=3)).map(''.join)
+    name = st.one_of(
+        st.tuples(st.text(alphabet=LETTERS, min_size=1, max_size=4), st.text(alphabet=NAME_ALPHABET, min_size=0, max_size=3)).map(''.join),
+        st.tuples(st.text(alphabet=LETTERS, min_size=1, max_size=4), st.text(alphabet=NAME_ALPHABET, min_size=0, max_size=3)).map(''.join),
+        # names that begin with a digit, as hydrogens are called in old files (the letter follows at once, so that every
+        # truncation still holds one)
+        st.sampled_from(['1HB', '2HB', '1HD1', '3H', '1HW', '2HG2', '1C', '2OW', '1h']))
     resname = st.one_of(st.sampled_from(['ALA', 'GLY', 'POPC', 'W', 'ION', 'HSD', 'CHOL1']),
                         st.text(alphabet='ABCDEFGHIKLMNOPQRSTUVWXYZ0123456789', min_size=1, max_size=7))
     resid = st.one_of(st.integers(1, 200), st.integers(1, 200),
